@@ -452,7 +452,7 @@ pub fn generate(seed: u64, thorough: bool) -> Vec<String> {
     let mut rng = Rng::new(seed ^ 0xC06);
     let mut out = vec![];
     let mut grams = fixed_grams();
-    let n = if thorough { 700 } else { 110 };
+    let n = if thorough { 1500 } else { 390 };
     for i in 0..n {
         // size caps: k ≤ 3 with up to 3 terminals; k = 4, 5 (thorough) with 2 terminals and ≤ 4 non-terminals
         let big_k = thorough && i % 4 == 3;
